@@ -10,6 +10,9 @@ import SJ.Props.C03
 import SJ.Proofs.TypedSerClosed
 import SJ.Proofs.TypedFloatLink
 import SJ.Proofs.TypedPrettyAll
+import SJ.Proofs.TypedRTGen
+import SJ.Proofs.TypedSerClosedL
+import SJ.Proofs.TypedSameAp
 /-!
 # C04 — serialise then deserialise is the identity (the `Value` clause)
 
@@ -425,198 +428,7 @@ example : Spec.WF.floatRT (specCfg { fr := true }) ext0 0x3ff8000000000000 = tru
 
 /-! ## the typed clause: serialise a typed value, read it back with the typed deserializer -/
 
-/-- **C04 (typed values, compact) — partial.** For every schema `s` of the fragment `agreeFragT` — bool, the twelve integer
-    types (128-bit included, any value of the type), `f64`, char, `String`, byte buffers, unit / unit structs, `Option`, newtype
-    structs, `Vec`, tuples, maps with every key kind (string, the twelve integer widths, bool, char, unit-variant enums),
-    structs, externally tagged enums with unit / newtype / non-empty tuple / struct variants — and every well-formed value
-    `v` of that type (`wfTV`: the value
-    inhabits the type, floats finite, strings valid UTF-8, `char`s scalar values, field / variant / key names distinct valid
-    UTF-8, and not the documented exception: no `Some(x)` whose `x` serialises as JSON `null`) whose text nests at most 127
-    deep (or the limit is off) and whose `f64` members the printer / parser pair returns (`hF`: the named hypothesis
-    `FloatsRoundTrip` on the members — discharged from `RyuShortest` under `float_roundtrip`: `c04_typed_fr`; vacuous without
-    `f64` members: `c04_typed_nofloat`; in the default build it holds for members printing as short literals, C08):
-    `to_string` — the calls `Serialize` makes (`progOf s v`) run through the serializer model —
-    succeeds, and `from_str::<T>` of that text (typed deserializer + `end()`, any source) returns `v`.
-    By composition: C03 (`c03_compact`: the text is `render` of the program's image), `image_progOf` (that image is the
-    image of the `Value` `valueOf s v`), `fromValue_valueOf` (`from_value(to_value(v)) = v`) and the text leg of C16
-    (`agree_gen`: the typed deserializer on the printed `Value` returns what `from_value` returns).
-    Missing (named): the pretty formatter for the general statement (`c04_typed_pretty_partial` covers it on its own
-    fragment; the correspondence op `rtm` runs both formatters); `f32` fields (`to_string` prints an `f32` with `ryu`'s
-    binary32 digits, which is not the text of the widened `Value` — the detour through `from_value` does not apply; the leaf
-    round trip is `c04_typed_f32_leaf`); `Value` members (the text leg covers `Value` targets, but `wfTV` does not yet
-    carry `WFValue` for them) and `IgnoredAny` (no `Serialize` impl); zero-length tuple variants (`{"V":[]}` is read back by
-    the text deserializer — `from_value` refuses it, the composition breaks); `arbitrary_precision`. The `Serialize` impls
-    themselves are serde's / serde_derive's (assumption; the correspondence op `rtm` replays exactly these calls against
-    the crate). -/
-theorem c04_typed_partial (mcfg : Cfg) (hap : mcfg.ap = false) (src : Src) (ext : Ext) (hext : ExtOK ext)
-    (s : Schema) (hs : Proofs.Typed.agreeFragT s = true) (v : TVal) (hw : Model.TypedSer.wfTV s v = true)
-    (hF : FloatsRoundTrip mcfg ext (Model.TypedSer.valueOf s v))
-    (hd : mcfg.limitOff = true ∨ depthJV (Model.TypedSer.valueOf s v) ≤ 127) :
-    ∃ bufs, serCompact ext (Model.TypedSer.progOf s v) = .ok bufs ∧
-      Model.Typed.deTypedTop { cfg := mcfg, src := src } s bufs.flatten = .ok v := by
-  have himg := Proofs.TypedSer.image_progOf ext hext s v hw
-  have hpw := Proofs.TypedSer.progOf_wf s v hw
-  cases hser : serCompact ext (Model.TypedSer.progOf s v) with
-  | error e =>
-    have := ((SJ.Props.C03.c03_error_iff ext hext _ e).1).1 hser
-    rw [himg] at this; cases this
-  | ok bufs =>
-    refine ⟨bufs, rfl, ?_⟩
-    obtain ⟨d, hd', htext, _⟩ := SJ.Props.C03.c03_compact ext hext _ hpw bufs hser
-    rw [himg] at hd'; cases hd'
-    rw [htext]
-    have hvok := Proofs.TypedSer.vok_valueOf s v hs hw
-    have hfv := Proofs.TypedSer.fromValue_valueOf { po := mcfg.po, fr := mcfg.fr, ap := false } rfl {} s v hs hw
-    have hag := Proofs.Typed.agree_gen ext hext (env := { cfg := mcfg, src := src }) rfl hap
-      { po := mcfg.po, fr := mcfg.fr, ap := false } rfl {} Proofs.TypedSer.RT Proofs.TypedSer.closed_RT
-      (fun h => by cases h) (fun w v h _ b hb => absurd hb (Proofs.TypedSer.rt_int_notFloat w v h b)) Proofs.TypedSer.rt_f64_range
-      (Model.Typed.Schema.size s + 1) s (by omega) hs 0 (Model.TypedSer.valueOf s v) hvok.1 hF
-      (by rcases hd with h | h
-          · exact .inl h
-          · exact .inr (by omega)) ⟨v, hw, rfl⟩ [] 0 (.inl rfl)
-    rw [hfv] at hag
-    simp only [List.append_nil] at hag
-    unfold Proofs.Typed.T at hag
-    unfold Model.Typed.deTypedTop
-    rw [hag]
-    simp [Model.Stream.skipWs]
-
-/-- **C04 (typed values, compact) under `float_roundtrip`.** With `float_roundtrip` and the named hypothesis `RyuShortest ext`
-    about the external printer, every well-formed typed value of the fragment — *all* finite `f64` members included —
-    survives `to_string` → `from_str::<T>`: the float hypothesis of `c04_typed_partial` is C07's round trip. -/
-theorem c04_typed_fr (mcfg : Cfg) (hfr : mcfg.fr = true) (hap : mcfg.ap = false) (src : Src) (ext : Ext) (hext : ExtOK ext)
-    (hr : SJ.Proofs.LexTopRoundtrip.RyuShortest ext)
-    (s : Schema) (hs : Proofs.Typed.agreeFragT s = true) (v : TVal) (hw : Model.TypedSer.wfTV s v = true)
-    (hd : mcfg.limitOff = true ∨ depthJV (Model.TypedSer.valueOf s v) ≤ 127) :
-    ∃ bufs, serCompact ext (Model.TypedSer.progOf s v) = .ok bufs ∧
-      Model.Typed.deTypedTop { cfg := mcfg, src := src } s bufs.flatten = .ok v :=
-  c04_typed_partial mcfg hap src ext hext s hs v hw
-    (Proofs.TypedSer.floatsRT_of_finite _ ext
-      (fun b hb => SJ.Proofs.LexTopParser.floatRT_fr (specCfg mcfg) hfr hap ext hext hr b hb) _
-      (Proofs.TypedSer.vok_valueOf s v hs hw).2) hd
-
-/-- **C04 (typed values, compact) without `f64` members**: no hypothesis about the printer / parser pair, every build
-    without `arbitrary_precision` -/
-theorem c04_typed_nofloat (mcfg : Cfg) (hap : mcfg.ap = false) (src : Src) (ext : Ext) (hext : ExtOK ext)
-    (s : Schema) (hs : Proofs.Typed.agreeFragT s = true) (v : TVal) (hw : Model.TypedSer.wfTV s v = true)
-    (hnf : noFloat (Model.TypedSer.valueOf s v) = true)
-    (hd : mcfg.limitOff = true ∨ depthJV (Model.TypedSer.valueOf s v) ≤ 127) :
-    ∃ bufs, serCompact ext (Model.TypedSer.progOf s v) = .ok bufs ∧
-      Model.Typed.deTypedTop { cfg := mcfg, src := src } s bufs.flatten = .ok v :=
-  c04_typed_partial mcfg hap src ext hext s hs v hw (SJ.Proofs.RoundTrip.floatsRT_of_noFloat _ ext _ hnf) hd
-
-/-- `struct S { a: u8, b: Option<String>, e: E }` with `enum E { U, V(u8, String) }`: `{"a":7,"b":null,"e":{"V":[1,"x\n"]}}` -/
-def exSchema : Schema :=
-  .struct_ [([0x61], .int .u8), ([0x62], .option .string), ([0x65], .enum_ [([0x55], .unit), ([0x56], .tuple [.int .u8, .string])])] false
-def exTV : TVal := .struct_ [.int 7, .none, .variant 1 (.seq [.int 1, .str [0x78, 0x0a]])]
-
-example : Proofs.Typed.agreeFragT exSchema = true ∧ Model.TypedSer.wfTV exSchema exTV = true ∧
-    depthJV (Model.TypedSer.valueOf exSchema exTV) ≤ 127 := by decide
-
-example : (serCompact ext0 (Model.TypedSer.progOf exSchema exTV)).map List.flatten = .ok
-    [0x7b, 0x22, 0x61, 0x22, 0x3a, 0x37, 0x2c, 0x22, 0x62, 0x22, 0x3a, 0x6e, 0x75, 0x6c, 0x6c, 0x2c, 0x22, 0x65, 0x22, 0x3a,
-     0x7b, 0x22, 0x56, 0x22, 0x3a, 0x5b, 0x31, 0x2c, 0x22, 0x78, 0x5c, 0x6e, 0x22, 0x5d, 0x7d, 0x7d] := rfl
-
-example : ∃ bufs, serCompact ext0 (Model.TypedSer.progOf exSchema exTV) = .ok bufs ∧
-    Model.Typed.deTypedTop { cfg := {}, src := .reader } exSchema bufs.flatten = .ok exTV :=
-  c04_typed_partial {} rfl .reader ext0 ext0_ok exSchema (by decide) exTV (by decide) (by decide) (.inr (by decide))
-
-/-- the pretty formatter's layout for a whitespace indent: a line break and `depth` copies of the indent before every element /
-    member and before the closing bracket, one space after the colon -/
-def prettyLay (indent : Bytes) (hind : Ws indent) : Proofs.TypedPretty.Lay :=
-  ⟨Spec.Image.newline indent, [0x20], fun d => Proofs.TypedPretty.wsB_of_ws (SJ.Proofs.SerLayout.ws_newline indent hind d),
-   fun c hc => by simp at hc; subst hc; decide⟩
-
-/-- **C04 (typed values, PRETTY formatter) — partial** (the name says what `c04_typed_partial` leaves out, not the formatter:
-    on its fragment the pretty statement is complete). For every schema of `agreeFragT` and every well-formed typed value
-    as in `c04_typed_partial` (same hypotheses: `wfTV`, `FloatsRoundTrip` on the `f64` members, depth), and every indent made
-    of JSON whitespace (`Ws indent`; `to_string_pretty` uses two spaces): `to_string_pretty` — the calls `Serialize` makes run
-    through `serPretty` — succeeds, and `from_str::<T>` of that text (typed deserializer + `end()`, any source) returns `v`.
-    By composition: C03 (`c03_pretty_layout`: the text is `layout indent` of the program's image), `image_progOf`,
-    `fromValue_valueOf`, and the text leg on a LAYOUT (`agree_gen_L`, `Proofs/TypedPretty*.lean`: the typed reader skips
-    whitespace wherever the pretty printer puts it — before every element, member and closing bracket, after every `:`).
-    Missing: exactly what `c04_typed_partial` misses (`f32` members, `Value` members, zero-length tuple variants,
-    `arbitrary_precision`). -/
-theorem c04_typed_pretty_partial (mcfg : Cfg) (hap : mcfg.ap = false) (src : Src) (ext : Ext) (hext : ExtOK ext)
-    (indent : Bytes) (hind : Ws indent)
-    (s : Schema) (hs : Proofs.Typed.agreeFragT s = true) (v : TVal) (hw : Model.TypedSer.wfTV s v = true)
-    (hF : FloatsRoundTrip mcfg ext (Model.TypedSer.valueOf s v))
-    (hd : mcfg.limitOff = true ∨ depthJV (Model.TypedSer.valueOf s v) ≤ 127) :
-    ∃ bufs, serPretty ext indent (Model.TypedSer.progOf s v) = .ok bufs ∧
-      Model.Typed.deTypedTop { cfg := mcfg, src := src } s bufs.flatten = .ok v := by
-  have himg := Proofs.TypedSer.image_progOf ext hext s v hw
-  have hpw := Proofs.TypedSer.progOf_wf s v hw
-  cases hser : serPretty ext indent (Model.TypedSer.progOf s v) with
-  | error e =>
-    have := ((SJ.Props.C03.c03_error_iff ext hext _ e).2 indent).1 hser
-    rw [himg] at this; cases this
-  | ok bufs =>
-    refine ⟨bufs, rfl, ?_⟩
-    obtain ⟨d, hd', htext, _⟩ := SJ.Props.C03.c03_pretty_layout ext hext indent _ hpw bufs hser
-    rw [himg] at hd'; cases hd'
-    rw [htext]
-    have hvok := Proofs.TypedSer.vok_valueOf s v hs hw
-    have hfv := Proofs.TypedSer.fromValue_valueOf { po := mcfg.po, fr := mcfg.fr, ap := false } rfl {} s v hs hw
-    have hag := Proofs.TypedPretty.agree_gen_L ext (prettyLay indent hind) hext (env := { cfg := mcfg, src := src }) rfl hap
-      { po := mcfg.po, fr := mcfg.fr, ap := false } rfl {} Proofs.TypedSer.RT Proofs.TypedSer.closed_RT
-      (fun h => by cases h) (fun w v h _ b => Proofs.TypedSer.rt_int_notFloat w v h b) Proofs.TypedSer.rt_f64_range
-      Proofs.TypedSer.rt_struct_notArr (fun fs kvs h => Proofs.TypedSer.rt_struct_known fs false kvs h)
-      (Model.Typed.Schema.size s + 1) s (by omega) hs 0 0 (Model.TypedSer.valueOf s v) hvok.1 hF
-      (by rcases hd with h | h
-          · exact .inl h
-          · exact .inr (by omega)) ⟨v, hw, rfl⟩ [] 0 (.inl rfl)
-    rw [hfv] at hag
-    simp only [List.append_nil] at hag
-    have hT : Proofs.TypedPretty.TL ext (prettyLay indent hind) 0 (Model.TypedSer.valueOf s v) =
-        Spec.Image.layout indent (Spec.Image.imageOfValue ext (Model.TypedSer.valueOf s v)) := rfl
-    rw [hT] at hag
-    unfold Model.Typed.deTypedTop
-    rw [hag]
-    simp [Model.Stream.skipWs]
-
-/-- **C04 (typed values, pretty) under `float_roundtrip`**: all finite `f64` members, from `RyuShortest` -/
-theorem c04_typed_pretty_fr (mcfg : Cfg) (hfr : mcfg.fr = true) (hap : mcfg.ap = false) (src : Src) (ext : Ext) (hext : ExtOK ext)
-    (hr : SJ.Proofs.LexTopRoundtrip.RyuShortest ext) (indent : Bytes) (hind : Ws indent)
-    (s : Schema) (hs : Proofs.Typed.agreeFragT s = true) (v : TVal) (hw : Model.TypedSer.wfTV s v = true)
-    (hd : mcfg.limitOff = true ∨ depthJV (Model.TypedSer.valueOf s v) ≤ 127) :
-    ∃ bufs, serPretty ext indent (Model.TypedSer.progOf s v) = .ok bufs ∧
-      Model.Typed.deTypedTop { cfg := mcfg, src := src } s bufs.flatten = .ok v :=
-  c04_typed_pretty_partial mcfg hap src ext hext indent hind s hs v hw
-    (Proofs.TypedSer.floatsRT_of_finite _ ext
-      (fun b hb => SJ.Proofs.LexTopParser.floatRT_fr (specCfg mcfg) hfr hap ext hext hr b hb) _
-      (Proofs.TypedSer.vok_valueOf s v hs hw).2) hd
-
-/-- **C04 (typed values), the `f32` leaf under `float_roundtrip`.** `to_string(x)` for a finite `x : f32` (the serializer
-    prints it with `ryu`'s binary32 digits) followed by `from_str::<f32>` returns `x`, bit for bit (`-0.0` and subnormals
-    included), from every source: the typed `f32` path (`single_precision`: parse straight to binary32, `Typed.f32Roundtrip`)
-    is lexical's correctly rounded conversion (`c07_typed_f32_link`, `c07_correct`), and `ryu`'s shortest digits round back
-    (`RyuShortest`). `f32` MEMBERS of containers are not covered by `c04_typed_partial` (its composition goes through
-    `from_value(to_value(x))`, and `to_value` widens an `f32` to an `f64` whose text differs). -/
-theorem c04_typed_f32_leaf (mcfg : Cfg) (hfr : mcfg.fr = true) (src : Src) (ext : Ext) (hext : ExtOK ext)
-    (hr : SJ.Proofs.LexTopRoundtrip.RyuShortest ext) (b : UInt32) (hb : Spec.Program.finite32 b = true) :
-    ∃ bufs, serCompact ext (Model.TypedSer.progOf .f32 (.f32 b)) = .ok bufs ∧
-      Model.Typed.deTypedTop { cfg := mcfg, src := src } .f32 bufs.flatten = .ok (.f32 b) := by
-  have himg : Spec.Image.image ext (Model.TypedSer.progOf .f32 (.f32 b)) = .ok (Spec.Image.numOf (ext.ryu32 b)) := by
-    simp [Model.TypedSer.progOf, Spec.Image.image, hb]
-  cases hser : serCompact ext (Model.TypedSer.progOf .f32 (.f32 b)) with
-  | error e =>
-    have := ((SJ.Props.C03.c03_error_iff ext hext _ e).1).1 hser
-    rw [himg] at this; cases this
-  | ok bufs =>
-    refine ⟨bufs, rfl, ?_⟩
-    obtain ⟨d, hd', htext, _⟩ := SJ.Props.C03.c03_compact ext hext _ rfl bufs hser
-    rw [himg] at hd'; cases hd'
-    rw [htext]
-    have htxt : Spec.Image.render (Spec.Image.numOf (ext.ryu32 b)) = ext.ryu32 b := by
-      simp only [Spec.Image.render, Spec.Image.numOf, Spec.Image.layoutWith]
-      exact SJ.Proofs.Number.splitNumber_bytes _
-    rw [htxt]
-    have := SJ.Proofs.TypedFloat.deNumber_f32_ryu { cfg := mcfg, src := src } rfl hfr ext hext hr b hb [] 0 (.inl rfl)
-    simp only [List.append_nil] at this
-    unfold Model.Typed.deTypedTop
-    have hsz : Model.Typed.Schema.size Schema.f32 + 1 = 1 + 1 := rfl
-    rw [hsz, SJ.Proofs.Typed.deTyped_f32, this]
-    simp [Model.Stream.skipWs]
+open SJ.Model.TypedSer (valueOfL wfTVx f32sOf progOf)
 
 /-- the named hypothesis for an `f32` in a build without `float_roundtrip`: the text `ryu` prints for the `f32`, converted by the
     configured (default) algorithm to an `f64` and cast by serde's visitor (`as f32`), is the `f32` again. (It holds for every
@@ -625,56 +437,279 @@ theorem c04_typed_f32_leaf (mcfg : Cfg) (hfr : mcfg.fr = true) (src : Src) (ext 
 def F32RoundTrip (cfg : Cfg) (ext : Ext) (b : UInt32) : Prop :=
   ∃ y, Spec.Canon.numOf (specCfg cfg) (Spec.Number.splitNumber (ext.ryu32 b)) = some (Num.float y) ∧ Model.FromValue.f64ToF32 y = b
 
-/-- **C04 (typed values), the `f32` leaf in the default build** under the named hypothesis `F32RoundTrip` -/
-theorem c04_typed_f32_leaf_default (mcfg : Cfg) (hfr : mcfg.fr = false) (hap : mcfg.ap = false) (src : Src) (ext : Ext)
-    (hext : ExtOK ext) (b : UInt32) (hb : Spec.Program.finite32 b = true) (hrt : F32RoundTrip mcfg ext b) :
-    ∃ bufs, serCompact ext (Model.TypedSer.progOf .f32 (.f32 b)) = .ok bufs ∧
-      Model.Typed.deTypedTop { cfg := mcfg, src := src } .f32 bufs.flatten = .ok (.f32 b) := by
-  have himg : Spec.Image.image ext (Model.TypedSer.progOf .f32 (.f32 b)) = .ok (Spec.Image.numOf (ext.ryu32 b)) := by
-    simp [Model.TypedSer.progOf, Spec.Image.image, hb]
-  cases hser : serCompact ext (Model.TypedSer.progOf .f32 (.f32 b)) with
+/-- the hypothesis about the `f32` MEMBERS of a typed value: under `float_roundtrip` the named hypothesis `RyuShortest` about the
+    printer (the typed `f32` path parses straight to binary32, correctly rounded: `c07_typed_f32_link`, `c07_correct`); in the
+    other builds `F32RoundTrip` for each member -/
+def F32sRoundTrip (cfg : Cfg) (ext : Ext) (v : TVal) : Prop :=
+  ∀ b ∈ f32sOf v, (cfg.fr = true ∧ SJ.Proofs.LexTopRoundtrip.RyuShortest ext) ∨ (cfg.fr = false ∧ F32RoundTrip cfg ext b)
+
+/-- the pretty formatter's layout for a whitespace indent: a line break and `depth` copies of the indent before every element /
+    member and before the closing bracket, one space after the colon -/
+def prettyLay (indent : Bytes) (hind : Ws indent) : Proofs.TypedPretty.Lay :=
+  ⟨Spec.Image.newline indent, [0x20], fun d => Proofs.TypedPretty.wsB_of_ws (SJ.Proofs.SerLayout.ws_newline indent hind d),
+   fun c hc => by simp at hc; subst hc; decide⟩
+
+/-- the core: the typed deserializer (+ `end()`) on the document of a typed value, written in a layout -/
+theorem typed_reads_back (mcfg : Cfg) (hap : mcfg.ap = false) (src : Src) (ext : Ext) (hext : ExtOK ext) (L : Proofs.TypedPretty.Lay)
+    (s : Schema) (v : TVal) (hw : wfTVx (specCfg mcfg) ext.ryu32 s v = true)
+    (hF : FloatsRoundTrip mcfg ext (valueOfL ext.ryu32 s v)) (h32 : F32sRoundTrip mcfg ext v)
+    (hd : mcfg.limitOff = true ∨ depthJV (valueOfL ext.ryu32 s v) ≤ 127) :
+    Model.Typed.deTypedTop { cfg := mcfg, src := src } s (Proofs.TypedPretty.TL ext L 0 (valueOfL ext.ryu32 s v)) = .ok v := by
+  have h32' : ∀ b ∈ f32sOf v, Spec.Program.finite32 b = true →
+      Proofs.TypedRT.Reads (Model.Typed.deNumber { cfg := mcfg, src := src } .f32) (.f32 b) (ext.ryu32 b) := by
+    intro b hb hfin rest pos hs
+    rcases h32 b hb with ⟨hfr, hr⟩ | ⟨hfr, hall⟩
+    · exact SJ.Proofs.TypedFloat.deNumber_f32_ryu { cfg := mcfg, src := src } rfl hfr ext hext hr b hfin rest pos
+        (SJ.Proofs.TypedFloat.term_of_sep hs)
+    · obtain ⟨y, hy, hyb⟩ := hall
+      have := SJ.Proofs.TypedFloat.deNumber_f32_default (env := { cfg := mcfg, src := src }) rfl hap ext hext hfr b hfin y hy rest pos hs
+      rw [this, hyb]
+  have hag := Proofs.TypedRT.reads_gen ext L hext (env := { cfg := mcfg, src := src }) rfl hap
+    (Model.Typed.Schema.size s + 1) s (by omega) 0 0 v hw hF h32'
+    (by rcases hd with h | h
+        · exact .inl h
+        · exact .inr (by omega)) [] 0 (.inl rfl)
+  simp only [List.append_nil] at hag
+  unfold Model.Typed.deTypedTop
+  rw [hag]
+  simp [Model.Stream.skipWs]
+
+/-- **C04 (typed values, compact) — partial (what is missing: typed data with `Value` members under `arbitrary_precision`).**
+    For EVERY schema `s` of the serialisable universe — bool, the twelve integer types (128-bit included), `f64`, `f32`, char,
+    `String`, byte buffers, unit / unit structs, `Option`, newtype structs, `Vec`, tuples of any length, maps with every key kind
+    (string, the twelve integer widths, bool, char, unit-variant enums), structs, externally tagged enums with unit / newtype /
+    tuple (ZERO-length included) / struct variants, and `Value` members — and every well-formed value `v` of that type
+    (`wfTVx`: the value inhabits the type, floats finite, strings valid UTF-8, `char`s scalar values, field / variant / key names
+    distinct valid UTF-8, a `Value` member is a value of the build (`shapeOK`), and not the documented exception: no `Some(x)`
+    whose `x` serialises as JSON `null`) whose text nests at most 127 deep (or the limit is off), whose `f64` members (and floats
+    inside `Value` members) the printer / parser pair returns (`hF`: the named hypothesis `FloatsRoundTrip` on the written
+    document `valueOfL ext.ryu32 s v` — discharged from `RyuShortest` under `float_roundtrip`: `c04_typed_fr`; vacuous without
+    such members: `c04_typed_nofloat`; in the default build it holds for members printing as short literals, C08) and whose
+    `f32` members `deserialize_f32` returns (`h32`: `F32sRoundTrip` — per member: `RyuShortest` under `float_roundtrip`, the named
+    `F32RoundTrip` otherwise; vacuous without `f32` members):
+    `to_string` — the calls `Serialize` makes (`progOf s v`) run through the serializer model — succeeds, and `from_str::<T>`
+    of that text (typed deserializer + `end()`, any source) returns `v`.
+    Proved DIRECTLY on the written text (`Proofs/TypedRT*.lean`: `reads_gen`, the success direction of the typed deserializer on
+    the text of each member, threaded through the container loops of `de.rs`), composed with C03 (`c03_compact`: the text is
+    `render` of the program's image) and `image_progOfL` (that image is the image of the document `valueOfL`); the leaves of the
+    former composition (`agree_gen_L` + `fromValue_valueOf`) are reused. Under `arbitrary_precision`: `c04_typed_ap_partial`
+    (schemas without `Value` members). `IgnoredAny` has no `Serialize` impl. The `Serialize` impls themselves are serde's /
+    serde_derive's (assumption; the correspondence op `rtm` replays exactly these calls against the crate). -/
+theorem c04_typed_partial (mcfg : Cfg) (hap : mcfg.ap = false) (src : Src) (ext : Ext) (hext : ExtOK ext)
+    (s : Schema) (v : TVal) (hw : wfTVx (specCfg mcfg) ext.ryu32 s v = true)
+    (hF : FloatsRoundTrip mcfg ext (valueOfL ext.ryu32 s v)) (h32 : F32sRoundTrip mcfg ext v)
+    (hd : mcfg.limitOff = true ∨ depthJV (valueOfL ext.ryu32 s v) ≤ 127) :
+    ∃ bufs, serCompact ext (progOf s v) = .ok bufs ∧
+      Model.Typed.deTypedTop { cfg := mcfg, src := src } s bufs.flatten = .ok v := by
+  have himg := Proofs.TypedSer.image_progOfL ext hext (specCfg mcfg) s v hw
+  have hpw := Proofs.TypedSer.progOf_wfX ext (specCfg mcfg) s v hw
+  cases hser : serCompact ext (progOf s v) with
   | error e =>
     have := ((SJ.Props.C03.c03_error_iff ext hext _ e).1).1 hser
     rw [himg] at this; cases this
   | ok bufs =>
     refine ⟨bufs, rfl, ?_⟩
-    obtain ⟨d, hd', htext, _⟩ := SJ.Props.C03.c03_compact ext hext _ rfl bufs hser
+    obtain ⟨d, hd', htext, _⟩ := SJ.Props.C03.c03_compact ext hext _ hpw bufs hser
     rw [himg] at hd'; cases hd'
     rw [htext]
-    have htxt : Spec.Image.render (Spec.Image.numOf (ext.ryu32 b)) = ext.ryu32 b := by
-      simp only [Spec.Image.render, Spec.Image.numOf, Spec.Image.layoutWith]
-      exact SJ.Proofs.Number.splitNumber_bytes _
-    rw [htxt]
-    obtain ⟨y, hy, hyb⟩ := hrt
-    have := SJ.Proofs.TypedFloat.deNumber_f32_default (env := { cfg := mcfg, src := src }) rfl hap ext hext hfr b hb y hy [] 0 (.inl rfl)
-    simp only [List.append_nil] at this
-    unfold Model.Typed.deTypedTop
-    have hsz : Model.Typed.Schema.size Schema.f32 + 1 = 1 + 1 := rfl
-    rw [hsz, SJ.Proofs.Typed.deTyped_f32, this, hyb]
-    simp [Model.Stream.skipWs]
+    exact typed_reads_back mcfg hap src ext hext Proofs.TypedPretty.Lay.compact s v hw hF h32 hd
+
+/-- **C04 (typed values, PRETTY formatter) — partial** (as `c04_typed_partial`: the whole serialisable universe; missing only
+    `Value` members under `arbitrary_precision`). For every indent made of JSON whitespace (`Ws indent`; `to_string_pretty` uses
+    two spaces): `to_string_pretty` — the calls `Serialize` makes run through `serPretty` — succeeds, and `from_str::<T>` of that
+    text (typed deserializer + `end()`, any source) returns `v`. By `c03_pretty_layout` (the text is `layout indent` of the
+    program's image), `image_progOfL` and `reads_gen` for the pretty layout (the typed reader skips whitespace wherever the
+    pretty printer puts it — before every element, member and closing bracket, after every `:`). -/
+theorem c04_typed_pretty_partial (mcfg : Cfg) (hap : mcfg.ap = false) (src : Src) (ext : Ext) (hext : ExtOK ext)
+    (indent : Bytes) (hind : Ws indent)
+    (s : Schema) (v : TVal) (hw : wfTVx (specCfg mcfg) ext.ryu32 s v = true)
+    (hF : FloatsRoundTrip mcfg ext (valueOfL ext.ryu32 s v)) (h32 : F32sRoundTrip mcfg ext v)
+    (hd : mcfg.limitOff = true ∨ depthJV (valueOfL ext.ryu32 s v) ≤ 127) :
+    ∃ bufs, serPretty ext indent (progOf s v) = .ok bufs ∧
+      Model.Typed.deTypedTop { cfg := mcfg, src := src } s bufs.flatten = .ok v := by
+  have himg := Proofs.TypedSer.image_progOfL ext hext (specCfg mcfg) s v hw
+  have hpw := Proofs.TypedSer.progOf_wfX ext (specCfg mcfg) s v hw
+  cases hser : serPretty ext indent (progOf s v) with
+  | error e =>
+    have := ((SJ.Props.C03.c03_error_iff ext hext _ e).2 indent).1 hser
+    rw [himg] at this; cases this
+  | ok bufs =>
+    refine ⟨bufs, rfl, ?_⟩
+    obtain ⟨d, hd', htext, _⟩ := SJ.Props.C03.c03_pretty_layout ext hext indent _ hpw bufs hser
+    rw [himg] at hd'; cases hd'
+    rw [htext]
+    exact typed_reads_back mcfg hap src ext hext (prettyLay indent hind) s v hw hF h32 hd
+
+/-- under `float_roundtrip` and `RyuShortest` the printer / parser pair returns the `f64` members of a well-formed typed value
+    and the floats inside its `Value` members -/
+theorem floatsRT_of_ryu (mcfg : Cfg) (hfr : mcfg.fr = true) (hap : mcfg.ap = false) (ext : Ext) (hext : ExtOK ext)
+    (hr : SJ.Proofs.LexTopRoundtrip.RyuShortest ext) (s : Schema) (v : TVal) (hw : wfTVx (specCfg mcfg) ext.ryu32 s v = true) :
+    FloatsRoundTrip mcfg ext (valueOfL ext.ryu32 s v) :=
+  Proofs.TypedSer.floatsRT_valueOfL (specCfg mcfg) ext
+    (fun b hb => SJ.Proofs.LexTopParser.floatRT_fr (specCfg mcfg) hfr hap ext hext hr b hb) ext.ryu32 s v hw
+
+/-- **C04 (typed values, both formatters) under `float_roundtrip`.** With `float_roundtrip` and the named hypothesis
+    `RyuShortest ext` about the external printer, every well-formed typed value of the whole serialisable universe — *all*
+    finite `f64` and `f32` members, floats inside `Value` members — survives `to_string` / `to_string_pretty` →
+    `from_str::<T>`: both float hypotheses of `c04_typed_partial` are C07's round trip. -/
+theorem c04_typed_fr (mcfg : Cfg) (hfr : mcfg.fr = true) (hap : mcfg.ap = false) (src : Src) (ext : Ext) (hext : ExtOK ext)
+    (hr : SJ.Proofs.LexTopRoundtrip.RyuShortest ext)
+    (s : Schema) (v : TVal) (hw : wfTVx (specCfg mcfg) ext.ryu32 s v = true)
+    (hd : mcfg.limitOff = true ∨ depthJV (valueOfL ext.ryu32 s v) ≤ 127) :
+    (∃ bufs, serCompact ext (progOf s v) = .ok bufs ∧
+      Model.Typed.deTypedTop { cfg := mcfg, src := src } s bufs.flatten = .ok v) ∧
+    (∀ indent, Ws indent → ∃ bufs, serPretty ext indent (progOf s v) = .ok bufs ∧
+      Model.Typed.deTypedTop { cfg := mcfg, src := src } s bufs.flatten = .ok v) :=
+  ⟨c04_typed_partial mcfg hap src ext hext s v hw (floatsRT_of_ryu mcfg hfr hap ext hext hr s v hw) (fun _ _ => .inl ⟨hfr, hr⟩) hd,
+   fun indent hind => c04_typed_pretty_partial mcfg hap src ext hext indent hind s v hw
+    (floatsRT_of_ryu mcfg hfr hap ext hext hr s v hw) (fun _ _ => .inl ⟨hfr, hr⟩) hd⟩
+
+/-- pretty alone (the former name) -/
+theorem c04_typed_pretty_fr (mcfg : Cfg) (hfr : mcfg.fr = true) (hap : mcfg.ap = false) (src : Src) (ext : Ext) (hext : ExtOK ext)
+    (hr : SJ.Proofs.LexTopRoundtrip.RyuShortest ext) (indent : Bytes) (hind : Ws indent)
+    (s : Schema) (v : TVal) (hw : wfTVx (specCfg mcfg) ext.ryu32 s v = true)
+    (hd : mcfg.limitOff = true ∨ depthJV (valueOfL ext.ryu32 s v) ≤ 127) :
+    ∃ bufs, serPretty ext indent (progOf s v) = .ok bufs ∧
+      Model.Typed.deTypedTop { cfg := mcfg, src := src } s bufs.flatten = .ok v :=
+  (c04_typed_fr mcfg hfr hap src ext hext hr s v hw hd).2 indent hind
+
+/-- **C04 (typed values, compact) without floats**: no `f64` / `f32` members and no float inside a `Value` member — no
+    hypothesis about the printer / parser pair, every build without `arbitrary_precision` -/
+theorem c04_typed_nofloat (mcfg : Cfg) (hap : mcfg.ap = false) (src : Src) (ext : Ext) (hext : ExtOK ext)
+    (s : Schema) (v : TVal) (hw : wfTVx (specCfg mcfg) ext.ryu32 s v = true)
+    (hnf : noFloat (valueOfL ext.ryu32 s v) = true) (hn32 : f32sOf v = [])
+    (hd : mcfg.limitOff = true ∨ depthJV (valueOfL ext.ryu32 s v) ≤ 127) :
+    ∃ bufs, serCompact ext (progOf s v) = .ok bufs ∧
+      Model.Typed.deTypedTop { cfg := mcfg, src := src } s bufs.flatten = .ok v :=
+  c04_typed_partial mcfg hap src ext hext s v hw (SJ.Proofs.RoundTrip.floatsRT_of_noFloat _ ext _ hnf)
+    (fun b hb => by rw [hn32] at hb; cases hb) hd
+
+/-- **C04 (typed values) under `arbitrary_precision` — partial (schemas without `Value` members).** With the feature on, the typed
+    entry points other than `Value` do not consult it (`c20_typed_same`, `Proofs/TypedSameAp.lean`: the very same code runs), and
+    the serializer writes typed integers / floats with `itoa` / `ryu` as without it: for every schema WITHOUT a `Value` member
+    (`hasAny s = false`) the statements of `c04_typed_partial` / `c04_typed_pretty_partial` hold verbatim in the
+    `arbitrary_precision` build — the float hypotheses being those of the build WITHOUT the feature (typed floats are converted by
+    the configured algorithm, not kept as text). What remains: typed data with `Value` members under `arbitrary_precision` (a
+    `Value` member then holds number literals, read back verbatim by the machine — `c04_value_ap` for a bare `Value`; the typed
+    leaf lemmas around it are proved for the feature off only). -/
+theorem c04_typed_ap_partial (mcfg : Cfg) (hap : mcfg.ap = true) (src : Src) (ext : Ext) (hext : ExtOK ext)
+    (s : Schema) (hs : Proofs.TypedAp.hasAny s = false) (v : TVal)
+    (hw : wfTVx (specCfg { mcfg with ap := false }) ext.ryu32 s v = true)
+    (hF : FloatsRoundTrip { mcfg with ap := false } ext (valueOfL ext.ryu32 s v))
+    (h32 : F32sRoundTrip { mcfg with ap := false } ext v)
+    (hd : mcfg.limitOff = true ∨ depthJV (valueOfL ext.ryu32 s v) ≤ 127) :
+    (∃ bufs, serCompact ext (progOf s v) = .ok bufs ∧
+      Model.Typed.deTypedTop { cfg := mcfg, src := src } s bufs.flatten = .ok v) ∧
+    (∀ indent, Ws indent → ∃ bufs, serPretty ext indent (progOf s v) = .ok bufs ∧
+      Model.Typed.deTypedTop { cfg := mcfg, src := src } s bufs.flatten = .ok v) := by
+  have henv : Proofs.TypedAp.withAp { cfg := { mcfg with ap := false }, src := src } true = { cfg := mcfg, src := src } := by
+    cases mcfg; simp_all [Proofs.TypedAp.withAp]
+  have transfer : ∀ bs, Model.Typed.deTypedTop { cfg := { mcfg with ap := false }, src := src } s bs = .ok v →
+      Model.Typed.deTypedTop { cfg := mcfg, src := src } s bs = .ok v := by
+    intro bs h
+    rcases Proofs.TypedAp.rel_top { cfg := { mcfg with ap := false }, src := src } true s hs bs with h1 | ⟨_, h2⟩
+    · rw [henv] at h1; rw [h1]; exact h
+    · rw [h] at h2; cases h2
+  constructor
+  · obtain ⟨bufs, h1, h2⟩ := c04_typed_partial { mcfg with ap := false } rfl src ext hext s v hw hF h32 hd
+    exact ⟨bufs, h1, transfer _ h2⟩
+  · intro indent hind
+    obtain ⟨bufs, h1, h2⟩ := c04_typed_pretty_partial { mcfg with ap := false } rfl src ext hext indent hind s v hw hF h32 hd
+    exact ⟨bufs, h1, transfer _ h2⟩
+
+/-- **C04 (typed values), the `f32` leaf under `float_roundtrip`.** `to_string(x)` for a finite `x : f32` (the serializer
+    prints it with `ryu`'s binary32 digits) followed by `from_str::<f32>` returns `x`, bit for bit (`-0.0` and subnormals
+    included), from every source: the typed `f32` path (`single_precision`: parse straight to binary32, `Typed.f32Roundtrip`)
+    is lexical's correctly rounded conversion (`c07_typed_f32_link`, `c07_correct`), and `ryu`'s shortest digits round back
+    (`RyuShortest`). An instance of `c04_typed_fr`. -/
+theorem c04_typed_f32_leaf (mcfg : Cfg) (hfr : mcfg.fr = true) (hap : mcfg.ap = false) (src : Src) (ext : Ext) (hext : ExtOK ext)
+    (hr : SJ.Proofs.LexTopRoundtrip.RyuShortest ext) (b : UInt32) (hb : Spec.Program.finite32 b = true) :
+    ∃ bufs, serCompact ext (progOf .f32 (.f32 b)) = .ok bufs ∧
+      Model.Typed.deTypedTop { cfg := mcfg, src := src } .f32 bufs.flatten = .ok (.f32 b) :=
+  (c04_typed_fr mcfg hfr hap src ext hext hr .f32 (.f32 b) (by simpa [wfTVx] using hb) (.inr (by simp [valueOfL, depthJV]))).1
+
+/-- **C04 (typed values), the `f32` leaf in the default build** under the named hypothesis `F32RoundTrip` -/
+theorem c04_typed_f32_leaf_default (mcfg : Cfg) (hfr : mcfg.fr = false) (hap : mcfg.ap = false) (src : Src) (ext : Ext)
+    (hext : ExtOK ext) (b : UInt32) (hb : Spec.Program.finite32 b = true) (hrt : F32RoundTrip mcfg ext b) :
+    ∃ bufs, serCompact ext (progOf .f32 (.f32 b)) = .ok bufs ∧
+      Model.Typed.deTypedTop { cfg := mcfg, src := src } .f32 bufs.flatten = .ok (.f32 b) :=
+  c04_typed_partial mcfg hap src ext hext .f32 (.f32 b) (by simpa [wfTVx] using hb) (by simp [FloatsRoundTrip, valueOfL, floatsRT])
+    (fun b' hb' => by
+      have : b' = b := by simpa [f32sOf] using hb'
+      subst this
+      exact .inr ⟨hfr, hrt⟩) (.inr (by simp [valueOfL, depthJV]))
+
+/-! ### instances -/
+
+/-- `struct S { a: u8, b: Option<String>, e: E }` with `enum E { U, V(u8, String) }`: `{"a":7,"b":null,"e":{"V":[1,"x\n"]}}` -/
+def exSchema : Schema :=
+  .struct_ [([0x61], .int .u8), ([0x62], .option .string), ([0x65], .enum_ [([0x55], .unit), ([0x56], .tuple [.int .u8, .string])])] false
+def exTV : TVal := .struct_ [.int 7, .none, .variant 1 (.seq [.int 1, .str [0x78, 0x0a]])]
+
+example : wfTVx (specCfg {}) ext0.ryu32 exSchema exTV = true ∧ depthJV (valueOfL ext0.ryu32 exSchema exTV) ≤ 127 ∧
+    f32sOf exTV = [] := by decide
+
+example : (serCompact ext0 (progOf exSchema exTV)).map List.flatten = .ok
+    [0x7b, 0x22, 0x61, 0x22, 0x3a, 0x37, 0x2c, 0x22, 0x62, 0x22, 0x3a, 0x6e, 0x75, 0x6c, 0x6c, 0x2c, 0x22, 0x65, 0x22, 0x3a,
+     0x7b, 0x22, 0x56, 0x22, 0x3a, 0x5b, 0x31, 0x2c, 0x22, 0x78, 0x5c, 0x6e, 0x22, 0x5d, 0x7d, 0x7d] := rfl
+
+example : ∃ bufs, serCompact ext0 (progOf exSchema exTV) = .ok bufs ∧
+    Model.Typed.deTypedTop { cfg := {}, src := .reader } exSchema bufs.flatten = .ok exTV :=
+  c04_typed_nofloat {} rfl .reader ext0 ext0_ok exSchema exTV (by decide) (by decide) (by decide) (.inr (by decide))
 
 /-- `struct P { x: f64, n: Vec<u8> }` with `x = 1.5` (`ext0` prints `1.5`): the float hypothesis holds at this value (by
     evaluation of the default conversion on `1.5`), so the pair round-trips by the theorem -/
 def exFSchema : Schema := .struct_ [([0x78], .f64), ([0x6e], .seq (.int .u8))] false
 def exFTV : TVal := .struct_ [.f64 0x3ff8000000000000, .seq [.int 1, .int 2]]
 
-example : ∃ bufs, serCompact ext0 (Model.TypedSer.progOf exFSchema exFTV) = .ok bufs ∧
+example : ∃ bufs, serCompact ext0 (progOf exFSchema exFTV) = .ok bufs ∧
     Model.Typed.deTypedTop { cfg := {}, src := .slice } exFSchema bufs.flatten = .ok exFTV :=
-  c04_typed_partial {} rfl .slice ext0 ext0_ok exFSchema (by decide) exFTV (by decide) (by decide +kernel) (.inr (by decide))
+  c04_typed_partial {} rfl .slice ext0 ext0_ok exFSchema exFTV (by decide) (by decide +kernel) (fun b hb => by cases hb)
+    (.inr (by decide))
 
 /-- the same two values through the pretty printer (indent: two spaces; a tab), read back from a reader -/
-example : ∃ bufs, serPretty ext0 [0x20, 0x20] (Model.TypedSer.progOf exSchema exTV) = .ok bufs ∧
+example : ∃ bufs, serPretty ext0 [0x20, 0x20] (progOf exSchema exTV) = .ok bufs ∧
     Model.Typed.deTypedTop { cfg := {}, src := .reader } exSchema bufs.flatten = .ok exTV :=
-  c04_typed_pretty_partial {} rfl .reader ext0 ext0_ok [0x20, 0x20] (by decide) exSchema (by decide) exTV (by decide) (by decide)
-    (.inr (by decide))
-example : ∃ bufs, serPretty ext0 [0x09] (Model.TypedSer.progOf exFSchema exFTV) = .ok bufs ∧
+  c04_typed_pretty_partial {} rfl .reader ext0 ext0_ok [0x20, 0x20] (by decide) exSchema exTV (by decide) (by decide)
+    (fun b hb => by cases hb) (.inr (by decide))
+example : ∃ bufs, serPretty ext0 [0x09] (progOf exFSchema exFTV) = .ok bufs ∧
     Model.Typed.deTypedTop { cfg := {}, src := .slice } exFSchema bufs.flatten = .ok exFTV :=
-  c04_typed_pretty_partial {} rfl .slice ext0 ext0_ok [0x09] (by decide) exFSchema (by decide) exFTV (by decide) (by decide +kernel)
+  c04_typed_pretty_partial {} rfl .slice ext0 ext0_ok [0x09] (by decide) exFSchema exFTV (by decide) (by decide +kernel)
+    (fun b hb => by cases hb) (.inr (by decide))
+
+/-- the three kinds of members the former statement left out, in one value: `struct X { f: f32, v: Value, e: E }` with
+    `enum E { Z() }`, `X { f: 1.5, v: [null, {"k": 1}], e: E::Z() }` — written `{"f":1.5,"v":[null,{"k":1}],"e":{"Z":[]}}`.
+    The `f32` hypothesis holds at `1.5` (`ext0` prints `1.5`, the default conversion gives the double 1.5, whose cast is the
+    `f32` 1.5). -/
+def exXSchema : Schema := .struct_ [([0x66], .f32), ([0x76], .any), ([0x65], .enum_ [([0x5a], .tuple [])])] false
+def exXTV : TVal := .struct_ [.f32 0x3fc00000, .any (.arr [.null, .obj [([0x6b], .num (.pos 1))]]), .variant 0 (.seq [])]
+
+example : (serCompact ext0 (progOf exXSchema exXTV)).map List.flatten = .ok
+    [0x7b, 0x22, 0x66, 0x22, 0x3a, 0x31, 0x2e, 0x35, 0x2c, 0x22, 0x76, 0x22, 0x3a, 0x5b, 0x6e, 0x75, 0x6c, 0x6c, 0x2c, 0x7b, 0x22, 0x6b, 0x22,
+     0x3a, 0x31, 0x7d, 0x5d, 0x2c, 0x22, 0x65, 0x22, 0x3a, 0x7b, 0x22, 0x5a, 0x22, 0x3a, 0x5b, 0x5d, 0x7d, 0x7d] := rfl
+
+theorem exX_f32 : F32sRoundTrip {} ext0 exXTV := by
+  intro b hb
+  have : b = 0x3fc00000 := by simpa [exXTV, f32sOf, Model.TypedSer.f32sOfList] using hb
+  subst this
+  exact .inr ⟨rfl, 0x3ff8000000000000, by decide +kernel, by decide +kernel⟩
+
+example : ∃ bufs, serCompact ext0 (progOf exXSchema exXTV) = .ok bufs ∧
+    Model.Typed.deTypedTop { cfg := {}, src := .slice } exXSchema bufs.flatten = .ok exXTV :=
+  c04_typed_partial {} rfl .slice ext0 ext0_ok exXSchema exXTV (by decide) (by decide +kernel) exX_f32 (.inr (by decide))
+example : ∃ bufs, serPretty ext0 [0x20, 0x20] (progOf exXSchema exXTV) = .ok bufs ∧
+    Model.Typed.deTypedTop { cfg := {}, src := .reader } exXSchema bufs.flatten = .ok exXTV :=
+  c04_typed_pretty_partial {} rfl .reader ext0 ext0_ok [0x20, 0x20] (by decide) exXSchema exXTV (by decide) (by decide +kernel) exX_f32
     (.inr (by decide))
+/-- … and `exSchema` / `exFSchema` in the `arbitrary_precision` build (no `Value` member) -/
+example : ∃ bufs, serCompact ext0 (progOf exFSchema exFTV) = .ok bufs ∧
+    Model.Typed.deTypedTop { cfg := { ap := true }, src := .slice } exFSchema bufs.flatten = .ok exFTV :=
+  (c04_typed_ap_partial { ap := true } rfl .slice ext0 ext0_ok exFSchema (by decide) exFTV (by decide) (by decide +kernel)
+    (fun b hb => by cases hb) (.inr (by decide))).1
 
 /-- the exception is needed: `Some(())` serialises as `null` and reads back as `None` -/
-example : Model.TypedSer.wfTV (.option .unit) (.some .unit) = false ∧
-    (serCompact ext0 (Model.TypedSer.progOf (.option .unit) (.some .unit))).map List.flatten = .ok [0x6e, 0x75, 0x6c, 0x6c] ∧
+example : wfTVx (specCfg {}) ext0.ryu32 (.option .unit) (.some .unit) = false ∧
+    (serCompact ext0 (progOf (.option .unit) (.some .unit))).map List.flatten = .ok [0x6e, 0x75, 0x6c, 0x6c] ∧
     (match Model.Typed.deTypedTop {} (.option .unit) [0x6e, 0x75, 0x6c, 0x6c] with | .ok t => t == .none | _ => false) = true :=
   ⟨by decide, rfl, by decide +kernel⟩
 
